@@ -22,10 +22,32 @@ ASSUMPTIONS = [
     "task (real SIGINT delivered to asyncio.run's handler, and Task.cancel())",
     "fault classes are represented by ConnectionError and 3 subclasses, UDSException / MissingResponse, and RuntimeError / "
     "ValueError / TimeoutError / OSError / AssertionError; sys.exit codes are non-negative ints, None or a string",
-    "a database that cannot be opened is represented by a file that is not a database and by a foreign schema version; other "
-    "faults inside the framework's own steps (flock acquisition -> exit 72, artifacts directory creation, transport connect "
-    "inside Scanner.setup) are outside the property statement ('raised in setup, main or teardown') and outside the model",
-    "sqlite3 / aiosqlite, zstandard, fcntl.flock, subprocess.run are trusted to do what their documentation says",
+    "a database that cannot be opened is represented by a file that is not a database and by a foreign schema version; faults "
+    "inside `_db_finish_run_meta` (Ctrl-C while the run_meta row is completed / while the connection is closed in the "
+    "`finally:` block) are not modelled",
+    "the lock file: 'cannot be locked' is represented by a lock file below a missing directory / below a regular file (any "
+    "OSError of open / flock takes the same `except OSError` -> exit 72); 'held by somebody else' by a second descriptor in "
+    "the same process that releases it once the run has logged that it waits. A Ctrl-C *while* the run waits for the lock "
+    "is not modelled (probed: the CancelledError leaves entry_point() outside the try, and the process only ends - status "
+    "SIGINT - once the lock is free, because the blocked flock thread is joined)",
+    "the artifacts directory: run directory names are modelled as numbers that sort like the names (`run-%Y%m%d-%H%M%S.%f` "
+    "sorts like the time for years 1000-9999); 'cannot be created' is represented by an artifacts base that is a regular file "
+    "and by an existing directory of the very name (clock pinned through `gallia.command.base.datetime`); failures after "
+    "`mkdir` (ENV dump, LATEST being a real directory, the log file not creatable) are not modelled. What the property "
+    "demands of a run that ends before it started is stated in Spec/Lifecycle.lean: exit code 72 and no record of a run on "
+    "the lock path; no exit code at all on the artifacts path (the property's endings are 'raised in setup, main or "
+    "teardown'; the OSError escaping entry_point() - traceback, status 1, lock held until the process is gone - is modelled "
+    "as it is and compared, not demanded)",
+    "the framework's own steps: PowerSupply.connect, shutil.which / Dumpcap (start returning a process or None, sync timing "
+    "out, stop), the transport's connect / close and the ECU's connect / start_cyclic_tester_present / "
+    "stop_cyclic_tester_present / properties are replaced by scripted fakes that raise where the script says (plus the real "
+    "tcp-lines transport and the real power-supply driver against a closed port); a raising `transport.close()` is taken "
+    "to leave the transport open, a raising tester-present start to leave no task behind. Not steps of the model: the "
+    "optional ECUReset, the initial ping (`wait_for_ecu`; a fault there has the effects of one at `ecu.connect()`), "
+    "`power_cycle`, the scan-run / properties rows of the database whose errors the code swallows (except that "
+    "`insert_scan_run`'s handler formats the exception with `{e:!r}`, which itself raises TypeError - then it behaves like "
+    "an unexpected error at `ecu.connect()`); their position in the source is pinned by `setup_teardown_order_agrees`",
+    "sqlite3 / aiosqlite, zstandard, fcntl.flock, subprocess.run, pathlib are trusted to do what their documentation says",
 ]
 
 QUIRKS = os.environ.get("C15_QUIRKS", "00000")  # diagnostic only: compare against the model of the pinned tree ("11110")
@@ -229,6 +251,8 @@ def impl_final(case, o):
            f"tclosed={int(o['transport_closed'])} trace={trace} tpstopped={int(o.get('tp_stopped', True))} "
            f"dcstopped={int(o.get('dc_stopped', True))} waited={int(o.get('waited', False))} artdir={opt(o.get('artdir'))} "
            f"runs={runs} latest={opt(o.get('latest'))}")
+    if o.get("art_before_lock"):
+        direct.append("artifacts-dir-created-while-somebody-else-held-the-lock")
     if not o.get("artdir_under_base", True):
         direct.append("artifacts-dir-outside-artifacts-base")
     # things the model does not carry but the property names
@@ -730,23 +754,39 @@ def replay(ctx, case):
 
 
 MANIFEST = {
-    "level_text": ("Lean 4 theorems over a statement-by-statement model of BaseCommand.entry_point / AsyncScript.run / "
-                   "Scanner+UDSScanner setup-teardown / run_hook (Model/Lifecycle.lean): for every resource combination, command "
-                   "kind, hook outcome, database opening or not, and every exit kind (return, sys.exit(n), sys.exit(non-int), expected / unexpected error, "
-                   "KeyboardInterrupt, cancellation of the main task) at setup, main, teardown-before-super and teardown-after-super "
-                   "the returned code follows the mapping 0 / n / 74 / 70 / 130, META.json and the run_meta row carry that code "
-                   "with ordered times, the log handler is closed, the database disconnected, the lock released, the post-hook "
-                   "sees the same code and META, and failing hooks are reported and change nothing. The except ladder, statement "
-                   "order, exit constants and CATCHED_EXCEPTIONS are regenerated from the AST / live modules with agreement "
-                   "theorems. Tied to the code by running the real entry_point() (three tiny command classes, fake in-process "
-                   "transport, real sqlite, flock probed from a second fd, zstd log decoded with PenlogReader, recording hook "
-                   "scripts, real SIGINT) over the crash-point matrix and comparing with the model and the executable spec; plus "
-                   "one shipped command end to end (`discover doip` with --db against a closed port)."),
+    "level_text": ("Lean 4 theorems over a statement-by-statement model of BaseCommand.entry_point (lock file, artifacts "
+                   "directory, log handler, hooks, try / except ladder / finally) / AsyncScript.run / Scanner + UDSScanner setup "
+                   "and teardown as lists of awaited steps / run_hook (Model/Lifecycle.lean): for every world (lock file free / "
+                   "held by somebody else / not lockable; any set of earlier run directories, any clock reading, artifacts base "
+                   "writable or not), every resource combination (lock, artifacts, database, hooks, power supply, dumpcap, "
+                   "tester-present task, properties), command kind, hook outcome, database opening or not, and every exit kind "
+                   "(return, sys.exit(n), sys.exit(non-int), expected / unexpected error, KeyboardInterrupt, cancellation of the "
+                   "main task) at setup, main, teardown-before-super, teardown-after-super and at each of the framework's own "
+                   "steps (power-supply connect, dumpcap, transport connect, ecu.connect, tester-present start / stop, "
+                   "properties, ecu.transport.close, transport.close, dumpcap.stop): the returned code follows the mapping 0 / n / "
+                   "74 / 70 / 130 (72 and nothing else when the lock cannot be taken), META.json and the run_meta row carry that "
+                   "code with ordered times, the log handler is closed, the database disconnected, the lock held throughout and "
+                   "released, the post-hook sees the same code and META, failing hooks are reported and change nothing; a failing "
+                   "setup step skips main and teardown, a raising teardown step replaces whatever main did, the artifacts "
+                   "directory is fresh (no earlier run's META.json is ever overwritten; LATEST points at the name-wise last run), "
+                   "a busy lock only delays the run; which half-finished setups / teardowns leave the transport, the "
+                   "tester-present task or dumpcap behind is characterised exactly. The except ladder, the statement order of "
+                   "entry_point, prepare_artifacts_dir and the four setup / teardown methods with their guards, the exit "
+                   "constants (incl. OSFILE), mkdir's flags and CATCHED_EXCEPTIONS are regenerated from the AST / live modules "
+                   "with agreement theorems. Tied to the code by running the real entry_point() (three tiny command classes; "
+                   "fake transport / ECU / power supply / dumpcap that raise on script, the real tcp-lines transport and "
+                   "power-supply driver against a closed port; real sqlite, flock probed and held from a second fd, pre-made run "
+                   "directories and LATEST, pinned clock, zstd log decoded with PenlogReader, recording hook scripts, real SIGINT) "
+                   "over the crash-point matrix and comparing with the model and the executable spec; plus one shipped command "
+                   "end to end (`discover doip` with --db against a closed port)."),
     "level_note": ("Trusted: Lean kernel (propext, Quot.sound, Classical.choice), the translator gen/c15_exit.py, the harness, "
-                   "sqlite3/aiosqlite, zstandard, flock, subprocess. Partial: process-level signal delivery and interpreter exit are "
-                   "represented by KeyboardInterrupt / task cancellation and by the return value of entry_point(); faults inside "
-                   "the framework's own pre-run steps other than opening the database (lock acquisition, artifacts dir, transport "
-                   "connect) are not modelled; config re-creation is only checked by round-tripping META.json's config through CONFIG_TYPE (C18 owns it)."),
-    "technique": "Lean 4 proof (case analysis over a total lifecycle model, regenerated ladder/constant tables) + differential correspondence against real entry_point() runs",
+                   "sqlite3/aiosqlite, zstandard, flock, subprocess, pathlib. Partial: process-level signal delivery and "
+                   "interpreter exit are represented by KeyboardInterrupt / task cancellation and by the return value of "
+                   "entry_point(); Ctrl-C while waiting for a busy lock, faults inside the finally block's database completion, "
+                   "failures of prepare_artifacts_dir after mkdir and the optional ECUReset / ping / power-cycle steps are not "
+                   "modelled; for a run whose artifacts directory cannot be created the property names no ending, the model "
+                   "follows the code (OSError escapes); config re-creation is only checked by round-tripping META.json's config "
+                   "through CONFIG_TYPE (C18 owns it)."),
+    "technique": "Lean 4 proof (induction over step lists + case analysis over a total lifecycle model, regenerated ladder / order / guard / constant tables) + differential correspondence against real entry_point() runs",
     "design_ref": "DESIGN.md section 7, C15",
 }
